@@ -561,7 +561,7 @@ fn c12_case(m: &str, cfg: &Config, fails: &mut Vec<C12Fail>, nfail: &mut u64, pr
     }
 }
 
-const SIGMA12: [&str; 12] = ["[", "]", "r", "e", "f", ":", " ", "0", "1", "9", "٣", "x"];
+const SIGMA12: [&str; 13] = ["[", "]", "r", "e", "f", ":", " ", "0", "1", "9", "٣", "x", "+"];
 
 fn c12_emit(cases: u64, present: u64, nfail: u64, fails: &[C12Fail])
 {
